@@ -264,6 +264,19 @@ static void families_1d(unsigned long long& unit, Stats& st)
 					if(lj && (A <= 0.55L * o.xmin || B <= 0.55L * o.xmin)) continue;	// the repulsive wall overflows
 					starts.push_back({A, B});
 				}
+		// the tolerance left to its default in both functions: Find_Maximum of -f is Find_Minimum of f
+		for(auto& s : starts)
+		{
+			if(!std::isfinite((double)o.f(s.first)) || !std::isfinite((double)o.f(s.second))) continue;
+			std::function<double(double)> fn = [&](double x) { return (double)o.f(x); };
+			std::function<double(double)> fm = [&](double x) { return -(double)o.f(x); };
+			double r = NAN, r2 = NAN;
+			std::string ck = o.name + "|start=" + mc::dec((double)s.first) + "," + mc::dec((double)s.second) + ",tol=default";
+			g_current = "Find_Minimum/Find_Maximum " + o.name + " start=" + mc::hexd((double)s.first) + "," + mc::hexd((double)s.second) + " tol=default";
+			if(mc::library_exits([&]() { r = Find_Minimum(fn, (double)s.first, (double)s.second); r2 = Find_Maximum(fm, (double)s.first, (double)s.second); })) { mc::violation("families1d", "families1d|" + ck + "|valid_request_terminated_process", "the library called exit() on a unimodal objective", g_current); continue; }
+			cases++;
+			if(!mc::same_bits(r, r2)) mc::violation("families1d", "families1d|" + ck + "|maximum_of_minus_f_differs", "Find_Minimum(f)=" + mc::dec(r) + " Find_Maximum(-f)=" + mc::dec(r2) + " with the default tolerance", g_current);
+		}
 		for(auto& s : starts)
 			for(double tol : {1e-3, 1e-6, 3e-8, 1e-10, 1e-12})
 			{
